@@ -5,6 +5,7 @@ import (
 	"fmt"
 	"math/big"
 	"math/rand"
+	"sort"
 	"time"
 
 	"cosmossdk.io/math"
@@ -140,8 +141,8 @@ type blockOps struct {
 
 type lockHist struct {
 	overBound *common.Address // a token whose weight was just made huge: the next block locks 2^96 of it (over the power bound)
-	split *splitLock // directed scenario in progress: power granted in pieces, taken back in one go
-	memberVal bool // a validator with a relayer voter's key has been created
+	split     *splitLock      // directed scenario in progress: power granted in pieces, taken back in one go
+	memberVal bool            // a validator with a relayer voter's key has been created
 	c         *vc.Ctx
 	cfg       lockCfg
 	r         *rand.Rand
@@ -828,4 +829,107 @@ func (h *lockHist) lastPayload() *goatxtypes.ExecutionPayload {
 		}
 	}
 	return nil
+}
+
+// closing runs a fixed continuation at the end of a history, so that stale entries in the locking module's derived
+// indices (a stake-index entry or a ranking entry left behind for a validator that is no candidate any more) do not
+// wait for a lucky later request to show: (1) one block raises every listed token's weight by one, which makes the
+// module re-rank every entry of its stake index; (2) then the validators other than validator 0 leave one per block,
+// strongest first, by unlocking everything they hold, which opens every seat and makes the end-of-block logic walk
+// ever deeper into the power ranking. These are ordinary execution-layer requests (the statement quantifies over
+// every history); the monitors judge the blocks as usual through after().
+func (h *lockHist) closing(after func()) {
+	if h.failed || h.vsetEnded || h.post == nil {
+		return
+	}
+	w0, a0, n0 := h.cfg.W, h.absentRun, h.nilRun
+	h.cfg.W, h.absentRun, h.nilRun = lockWeights{}, map[int]int{}, map[int]int{}
+	defer func() { h.cfg.W, h.absentRun, h.nilRun, h.extra = w0, a0, n0, nil }()
+	run := func(extra func(o *blockOps)) bool {
+		h.extra = extra
+		ok := h.step()
+		h.extra = nil
+		if !ok || h.failed || h.vsetEnded {
+			return false
+		}
+		if after != nil {
+			after()
+		}
+		return !h.failed
+	}
+	src := h.post
+	if !run(func(o *blockOps) {
+		for _, tk := range h.tokens {
+			if t := h.token(src, tk); t != nil && t.Weight < 1_000_000 {
+				o.Reqs.Locking.UpdateWeights = append(o.Reqs.Locking.UpdateWeights, &goattypes.UpdateTokenWeightRequest{Token: tk, Weight: t.Weight + 1})
+			}
+		}
+		o.Desc = append(o.Desc, "closing: raise every token weight by 1")
+	}) {
+		return
+	}
+	h.c.Count("closing_weight_probes", 1)
+	for k := 0; k < 2; k++ {
+		if !run(nil) {
+			return
+		}
+	}
+	// strongest first
+	var order []int
+	for vi := range h.vals {
+		if vi == 0 && h.cfg.Protect0 {
+			continue
+		}
+		if v := h.post.Validator(h.vals[vi].Key.Cons); v != nil && !v.Locking.IsZero() {
+			order = append(order, vi)
+		}
+	}
+	powerOf := func(vi int) uint64 {
+		if v := h.post.Validator(h.vals[vi].Key.Cons); v != nil {
+			return v.Power
+		}
+		return 0
+	}
+	sort.SliceStable(order, func(i, j int) bool { return powerOf(order[i]) > powerOf(order[j]) })
+	if len(order) > 12 {
+		order = order[:12]
+	}
+	for _, vi := range order {
+		vi := vi
+		if !run(func(o *blockOps) {
+			v := h.post.Validator(h.vals[vi].Key.Cons)
+			if v == nil {
+				return
+			}
+			for _, coin := range v.Locking {
+				tok, ok := tokenOfDenom(h.tokens, coin.Denom)
+				if !ok || !coin.Amount.IsPositive() {
+					continue
+				}
+				rec := &unlockRec{ID: h.nextUID, Val: vi, Token: tok, Requested: coin.Amount.BigInt()}
+				h.nextUID++
+				o.unlocks = append(o.unlocks, rec)
+				o.Reqs.Locking.Unlocks = append(o.Reqs.Locking.Unlocks, &goattypes.UnlockRequest{Id: rec.ID, Validator: h.vals[vi].Addr, Recipient: common.BigToAddress(big.NewInt(int64(0x1000 + rec.ID))), Token: tok, Amount: coin.Amount.BigInt()})
+				o.Desc = append(o.Desc, fmt.Sprintf("closing: unlock#%d v%d %s %s", rec.ID, vi, coin.Denom, coin.Amount))
+			}
+		}) {
+			return
+		}
+		h.c.Count("closing_exits", 1)
+	}
+	for k := 0; k < 3; k++ {
+		if !run(nil) {
+			return
+		}
+	}
+	h.c.Count("closing_phases_completed", 1)
+}
+
+func tokenOfDenom(tokens []common.Address, denom string) (common.Address, bool) {
+	for _, t := range tokens {
+		if denomOf(t) == denom {
+			return t, true
+		}
+	}
+	return common.Address{}, false
 }
